@@ -489,3 +489,24 @@ def dims_case(p, res):
                 elif not torch.allclose(first[snr][1], Nz, rtol=1e-5, atol=0):
                     v("snr", f"add_noise_for_snr: dim={d} and dim={first[snr][0]} name the same axes but give different noise for the same random answers", {"dim": str(d)})
     res.sample({"layout": lay, "complex": cplx, "dim_spellings": sum(len(v_) for v_ in forms.values())})
+
+
+# ----------------------------------------------------------------------------- spelling equivalence of the constructors behind this property
+# (positional / keyword / mixed spellings of one legal call configure the same object; shared helper kmc/spelling.py)
+_cases0, _execute0, _component0 = cases, execute, component_of
+
+
+def cases(tier, seed):  # noqa: F811
+    yield from _cases0(tier, seed)
+    yield f"{PID}|spelling", {"kind": "spelling", "tier": tier}
+
+
+def execute(p, res):  # noqa: F811
+    if p.get("kind") == "spelling":
+        from kmc import spelling
+        return spelling.run(PID, res)
+    return _execute0(p, res)
+
+
+def component_of(p):  # noqa: F811
+    return "spelling" if p.get("kind") == "spelling" else _component0(p)
